@@ -60,7 +60,7 @@ func (o Op) String() string {
 			return fmt.Sprintf("%s(%d)", o.K, o.D)
 		}
 		return o.K
-	case "cleand", "reloadd", "grow", "growside", "growlag":
+	case "cleand", "reloadd", "grow", "growside", "growx", "growlag":
 		return fmt.Sprintf("%s(%d)", o.K, o.D)
 	}
 	return o.K
@@ -131,7 +131,8 @@ type World struct {
 	hcfgLater    bool
 	Anomalies    []string // model-level anomalies (accepted header with unaccepted parent, ...)
 
-	SavedWork *big.Int // cumulative work of the reported tip at the last completed Save (nil: none)
+	SeqAtPrune int      // highest acceptance number at the time of the latest prune: what was accepted later is held by the repository's own answer
+	SavedWork  *big.Int // cumulative work of the reported tip at the last completed Save (nil: none)
 }
 
 func classify(err error) string {
@@ -339,7 +340,7 @@ func (w *World) Apply(op Op) *Step {
 				}
 			}
 		}
-	case "grow", "growside":
+	case "grow", "growside", "growx":
 		// grow: extend the reported best chain by D unit-work headers; growside: extend the heaviest
 		// leaf that is not on the reported best chain by D double-work headers (so that a side branch
 		// overtakes). Both reach taller trees than the bound on single submissions allows.
@@ -349,8 +350,11 @@ func (w *World) Apply(op Op) *Step {
 		if tip != nil {
 			label = tip.Label
 		}
-		if op.K == "growside" {
-			slot = "H"
+		if op.K == "growside" || op.K == "growx" {
+			// growx: the same leaf, extended by unit-work headers (a long side branch that stays behind)
+			if op.K == "growside" {
+				slot = "H"
+			}
 			var best *ref.Node
 			for _, n := range w.Tree.Sorted() {
 				if !w.Tree.IsLeaf(n) || (tip != nil && tip.HasAncestorOrSelf(n.Hash)) {
@@ -372,6 +376,8 @@ func (w *World) Apply(op Op) *Step {
 			}
 			u := Get(label)
 			hc := u.Header.Copy()
+			hhBefore := -1
+			Safe(func() error { hhBefore = w.Repo.HashHeight(u.Hash); return nil })
 			err, p := Safe(func() error { return w.Repo.ProcessHeader(w.Ctx, &hc) })
 			w.Submitted[label] = true
 			if p != "" {
@@ -380,6 +386,13 @@ func (w *World) Apply(op Op) *Step {
 			}
 			if err != nil {
 				st.Err = err.Error()
+				// as for single submissions: an error return that leaves the header known counts as
+				// an acceptance (C01: it must not leave a heavier accepted chain unreported)
+				hh := -1
+				Safe(func() error { hh = w.Repo.HashHeight(u.Hash); return nil })
+				if hh != -1 && hhBefore == -1 {
+					w.Tree.Add(RH(u.Hash), RH(u.Header.PrevBlock), u.Header.Bits, u.Label)
+				}
 				break
 			}
 			w.Tree.Add(RH(u.Hash), RH(u.Header.PrevBlock), u.Header.Bits, u.Label)
@@ -680,6 +693,13 @@ func (w *World) Apply(op Op) *Step {
 			}
 		}
 		w.Tree.Remove(RH(h))
+		// the chain of the last completed Save may have lost headers: what a restart owes is at most
+		// what is left of the accepted tree
+		if w.SavedWork != nil {
+			if tips := w.Tree.BestTips(); len(tips) > 0 && tips[0].Work.Cmp(w.SavedWork) < 0 {
+				w.SavedWork = tips[0].Work
+			}
+		}
 	case "unmark":
 		h := Get(op.L).Hash
 		err, p := Safe(func() error { return w.Repo.MarkHeaderNotInvalid(w.Ctx, h) })
@@ -811,6 +831,12 @@ func (w *World) notePrune(d int) {
 		w.PruneFloor = height - d
 	}
 	w.Pruned = true
+	w.SeqAtPrune = 0
+	for _, n := range w.Tree.Sorted() {
+		if n.Seq > w.SeqAtPrune {
+			w.SeqAtPrune = n.Seq
+		}
+	}
 }
 
 // treeKey identifies the set of accepted headers.
